@@ -515,14 +515,83 @@ class Module:
 
 
 # ------------------------------------------------------------------------------------------------
+# adversarial identifier shapes (opt-in: SchemaGen(names="adv") / SchemaGen(names=AdvNames(...)))
+# ------------------------------------------------------------------------------------------------
+class AdvNames:
+    """node names drawn from families that stress name scanning in paths / XPath / printers: names that are prefixes of
+    each other continued with '-', '.', '_', digits or letters; XPath / YANG keywords, operator, axis, node-type and
+    function names; every legal identifier character; very long names; names differing only in case; number look-alikes.
+    Every name is handed out once per object (pass `taken` = names of another module to force equal local names there)."""
+    BASES = ["port", "if", "a", "x", "id", "k", "and", "or", "not", "mod", "div", "e", "name", "text", "_"]
+    CONT = ["-id", ".v4", "_x", "2", "x", "-", ".", "_", "0", "-1", ".5", "e5", "E-1", "--", "..", "-and", "-or-", ".mod", "-div-x",
+            "A", "Z9", "_._", "-.", "id"]
+    KEYWORDS = ["and", "or", "not", "div", "mod", "text", "node", "comment", "processing-instruction", "current", "count",
+                "position", "last", "true", "false", "min", "max", "key", "value", "deref", "derived-from", "derived-from-or-self",
+                "re-match", "enum-value", "bit-is-set", "string", "number", "boolean", "contains", "concat", "id", "lang", "name",
+                "local-name", "namespace-uri", "sum", "floor", "self", "parent", "child", "ancestor", "descendant", "following",
+                "attribute", "input", "output", "config", "module", "type", "leaf", "leaf-list", "list", "container", "choice",
+                "case", "rpc", "action", "notification", "anydata", "augment", "when", "must", "NaN", "Infinity", "inf", "null",
+                "e", "E", "_", "__", "_1", "_-", "_.", "o", "r"]
+    ALLCHARS = ["_aZ09.-_", "A.b-c_d", "Z_9-.", "a.-_.-", "q0.0", "w-0-", "abcdefghijklmnopqrstuvwxyzABCDEFGHIJKLMNOPQRSTUVWXYZ0123456789_-."]
+    LONG = ["L" + "o" * 61 + "ng", "L" + "o" * 62 + "ng", "L" + "o" * 253 + "g", "L" + "o" * 254 + "g", "n" * 300, "m" + "-x" * 520,
+            "L" + "o" * 61 + "ng-x", "L" + "o" * 61 + "ng.1"]
+
+    def __init__(self, taken=(), prob=0.9, reuse=()):
+        self.used = set(taken)
+        self.prob = prob
+        self.reuse = list(reuse)          # names handed out first (e.g. local names of another module)
+
+    def _cands(self, rng):
+        r = rng.random()
+        used = sorted(self.used)
+        if r < 0.12 and self.reuse:
+            return [self.reuse.pop(rng.randrange(len(self.reuse)))]
+        if r < 0.45 and used:
+            # continuation of / proper prefix of / case variant of a name already in use
+            b = rng.choice(used)[:40]
+            out = [b + c for c in rng.sample(self.CONT, 3)]
+            if len(b) > 1:
+                cut = b[:rng.randrange(1, len(b))].rstrip("-.") or b[0]
+                out.append(cut)
+            out += [b.upper(), b.capitalize(), b.swapcase()]
+            rng.shuffle(out)
+            return out
+        if r < 0.6:
+            return [rng.choice(self.BASES) + rng.choice(self.CONT + [""])]
+        if r < 0.85:
+            return rng.sample(self.KEYWORDS, 3)
+        if r < 0.93:
+            return rng.sample(self.ALLCHARS, 2)
+        return rng.sample(self.LONG, 2)
+
+    def pick(self, rng, p, n):
+        if rng.random() < self.prob:
+            for _ in range(4):
+                for c in self._cands(rng):
+                    if c and c not in self.used and (c[0].isalpha() or c[0] == "_") and not c.lower().startswith("xml"):
+                        self.used.add(c)
+                        return c
+        c = "%s%d" % (p, n)
+        while c in self.used:
+            c += "_"
+        self.used.add(c)
+        return c
+
+
+# ------------------------------------------------------------------------------------------------
 # random schema
 # ------------------------------------------------------------------------------------------------
 class SchemaGen:
     def __init__(self, rng, adversarial=False, state=True, userord=True, constraints=True, defaults=True, choices=True,
-                 key_filter=None):
+                 key_filter=None, names=None, key_shuffle=False):
         # key_filter: optional predicate on a Type; list key types and leaf-list types are redrawn until it holds
         # (None: no restriction, same random stream as before the parameter existed)
         self.key_filter = key_filter
+        # names: None = <kind letters><counter> (k1, lf2, ...); "adv" or an AdvNames object = adversarial identifier shapes
+        # key_shuffle: order of the names in  key "..."  shuffled relative to the order of the key leaves
+        # (both opt-in; with the defaults no extra random numbers are drawn)
+        self.names = AdvNames() if names == "adv" else names
+        self.key_shuffle = key_shuffle
         self.rng = rng
         self.n = 0
         self.adv = adversarial
@@ -534,6 +603,8 @@ class SchemaGen:
 
     def nm(self, p):
         self.n += 1
+        if self.names is not None:
+            return self.names.pick(self.rng, p, self.n)
         return "%s%d" % (p, self.n)
 
     def leaf(self, config=True, allow_mand=True):
@@ -607,6 +678,8 @@ class SchemaGen:
             keys.append(k.name)
             children.append(k)
         children += self.nodes(depth - 1, cfg, count=rng.randrange(1, 4))
+        if self.key_shuffle and len(keys) > 1:
+            rng.shuffle(keys)
         unique = None
         minel, maxel = 0, None
         if self.constraints and cfg and rng.random() < 0.3:
@@ -680,7 +753,7 @@ class InstGen:
 
     def maybe_meta(self, n):
         if self.rng.random() < self.meta_prob:
-            n.meta.append(("m1", "note", gens.yang_string(self.rng, 5).decode("utf-8", "replace").replace("\r", "")))
+            n.meta.append(("m1", "note", gens.yang_string(self.rng, 5).decode("utf-8", "replace")))
         return n
 
     def term(self, s, value=None):
